@@ -19,6 +19,15 @@ for k in list(env):
         env.pop(k)
 cmd = ['/venv/bin/python', '-m', 'pytest', '-ra', '-q', '-p', 'no:cacheprovider', '--timeout=900',
        '--continue-on-collection-errors', '--junitxml=' + xml]
+if os.path.realpath(repo) != '/repo':
+    # the C accelerator has to be built there as well (git worktrees come without the .so)
+    b = subprocess.run(['/venv/bin/python', 'setup.py', '-q', 'build_ext', '--inplace'], cwd=repo, env=env,
+                       capture_output=True, text=True)
+    if b.returncode != 0:
+        print('extension build failed:', b.stderr[-1500:])
+        sys.exit(2)
+    # another tree (scratch worktree of a seeded change): import zope.interface from there
+    cmd = ['/venv/bin/python', os.path.join(os.path.dirname(os.path.abspath(__file__)), 'pyrun.py'), repo] + cmd[1:]
 p = subprocess.run(cmd, cwd=repo, env=env, capture_output=True, text=True)
 passed = set()
 for tc in ET.parse(xml).getroot().iter('testcase'):
